@@ -287,7 +287,7 @@ def run(ctx):
             ctx.sample("limits", {"form": form, "max_parts": n, "max_bytes": mem})
     # ---- parts around and above 64 KiB arriving in chunks larger than that (or all at once)
     if ctx.shard == 0:
-        for size in (65535, 65536, 65537, 70_000, 140_000):
+        for size in (65535, 65536, 65537, 70_000, 140_000, 1_500_000):  # the last one: more than 1 MiB arriving in one piece
             for last_is_big in (False, True):
                 for big_is_file in (True, False):
                     parts = [{"name": "a", "filename": None, "content": b"v1", "ctype": None, "extra": False},
@@ -298,7 +298,7 @@ def run(ctx):
                     form = {"boundary": b"boundary", "parts": parts, "preamble": b"", "epilogue": b"", "pad": b""}
                     n = len(parts)
                     mem = sum(len(p["content"]) for p in parts if p["filename"] is None)
-                    for cs in (None, 100_000, 65537, 65536):
+                    for cs in ((None, 1_200_000) if size > 1_000_000 else (None, 100_000, 65537, 65536)):
                         for mp, mm in ((n, mem), (n - 1, mem), (n, mem - 1), (n + 1, mem + 1)):
                             limits_case(ctx, form, mp, mm, cs, None)
                             ctx.mon("large-parts")
